@@ -442,7 +442,7 @@ std::string handle_inner(std::vector<std::string> const &t)
     int const *const old_data = v.data();
     std::size_t const old_cap = v.capacity();
     long long ret = -1, rret = -1;
-    bool reserve_op = false, shrink_op = false;
+    bool reserve_op = false, shrink_op = false, no_spec = false;
     std::size_t reserve_n = 0;
     src_t src{};
     auto const src_ok = [&](std::string const &tok) { return parse_src(tok, src); };
@@ -509,6 +509,31 @@ std::string handle_inner(std::vector<std::string> const &t)
       with_range(t[3], xs, [&](auto const b, auto const e) { v.insert(v.begin() + pos, b, e); });
       with_range(
           t[3], xs, [&](auto const b, auto const e) { ref.insert(ref.begin() + static_cast<std::ptrdiff_t>(pos), b, e); });
+    }
+    else if (op == "insr" && t.size() == 6 && t[3] == "self")
+    {
+      // a range of the vector itself.  std::vector forbids it; raw_vector inserts a copy of the range whenever the range lies in
+      // front of the insertion point (`spec`).  Otherwise the result depends on whether it reallocates (the in-place path reads
+      // the range after the shift): still executed and compared with the model (`std=na`) unless source and destination of the
+      // uninitialized_copy would overlap.
+      std::size_t const pos = static_cast<std::size_t>(vh::to_ull(t[2]));
+      std::size_t const a = static_cast<std::size_t>(vh::to_ull(t[4]));
+      std::size_t const b = static_cast<std::size_t>(vh::to_ull(t[5]));
+      if (!(a <= b && b <= sz && pos <= sz))
+        return "invalid";
+      bool const spec = b <= pos;
+      bool const in_place = sz + (b - a) <= old_cap;
+      if (!spec && a != b && in_place && !(pos + (b - a) <= a))
+        return "invalid";
+      std::vector<int> const copy(ref.begin() + static_cast<std::ptrdiff_t>(a), ref.begin() + static_cast<std::ptrdiff_t>(b));
+      v.insert(v.begin() + pos, v.begin() + a, v.begin() + b);
+      if (spec)
+        ref.insert(ref.begin() + static_cast<std::ptrdiff_t>(pos), copy.begin(), copy.end());
+      else
+      {
+        ref = contents(v);
+        no_spec = true;
+      }
     }
     else if (op == "set" && t.size() == 5)
     {
@@ -601,7 +626,7 @@ std::string handle_inner(std::vector<std::string> const &t)
     bool const cpok = shrink_op ? new_cap == v.size() : (new_cap >= old_cap && (!reserve_op || new_cap >= reserve_n));
     std::string const geo = shrink_op ? "-" : (new_cap == old_cap || new_cap >= 2 * old_cap) ? "1" : "0";
     return fmt_ret(ret) + " " + show_vec(r) + " reok=" + reok + " cpok=" + (cpok ? "1" : "0") + " geo=" + geo + " " +
-           tail(std_cmp({r}, {}, ret, rret));
+           tail(no_spec ? "na" : std_cmp({r}, {}, ret, rret));
   }
   if ((op == "swap" || op == "massign" || op == "cmp") && t.size() == 3)
   {
